@@ -103,24 +103,27 @@ Definition tp_max_climb_thrust_isa (P : params N) (v_altitude : T N) (v_v_tas : 
   let v_tas_kts_11 := (v_v_tas * k_MPS_TO_KNOTS) in
   ((((p_c_tc1 P) / v_tas_kts_11) * ((lit (1)%Z (1)%Z (0x1.0000000000000p+0)%float) - (altitude_ft_10 / (p_c_tc2 P)))) + (p_c_tc3 P)).
 
-Definition piston_nominal_fuel_flow (P : params N) (v_thrust : T N) (v_v_tas : T N) :=
-  (p_c_f1 P).
+(* psec = false: C_f1 (kg/min in BADA OPF files) used as it is — AS CODED before the repair FC19b;
+   psec = true : converted to kg/s like the jet and turboprop flows (repaired) *)
+Definition piston_nominal_fuel_flow (psec : bool) (P : params N) (v_thrust : T N) (v_v_tas : T N) :=
+  if psec then ((p_c_f1 P) / (lit (60)%Z (1)%Z (0x1.e000000000000p+5)%float)) else (p_c_f1 P).
 
-Definition piston_cruise_fuel_flow (P : params N) (v_thrust : T N) (v_v_tas : T N) :=
-  ((p_c_f1 P) * (p_c_fcr P)).
+Definition piston_cruise_fuel_flow (psec : bool) (P : params N) (v_thrust : T N) (v_v_tas : T N) :=
+  if psec then (((p_c_f1 P) / (lit (60)%Z (1)%Z (0x1.e000000000000p+5)%float)) * (p_c_fcr P))
+  else ((p_c_f1 P) * (p_c_fcr P)).
 
 Definition piston_max_climb_thrust_isa (P : params N) (v_altitude : T N) (v_v_tas : T N) :=
   let altitude_ft_12 := (v_altitude * k_METERS_TO_FEET) in
   let v_tas_kts_13 := (v_v_tas * k_MPS_TO_KNOTS) in
   (((p_c_tc1 P) * ((lit (1)%Z (1)%Z (0x1.0000000000000p+0)%float) - (altitude_ft_12 / (p_c_tc2 P)))) + ((p_c_tc3 P) / v_tas_kts_13)).
 
-Definition nominal_fuel_flow (E : engine) (P : params N) (v_thrust v_v_tas : T N) : T N :=
+Definition nominal_fuel_flow (psec : bool) (E : engine) (P : params N) (v_thrust v_v_tas : T N) : T N :=
   match E with Jet => jet_nominal_fuel_flow P v_thrust v_v_tas | Turboprop => tp_nominal_fuel_flow P v_thrust v_v_tas
-             | Piston => piston_nominal_fuel_flow P v_thrust v_v_tas end.
+             | Piston => piston_nominal_fuel_flow psec P v_thrust v_v_tas end.
 
-Definition cruise_fuel_flow (E : engine) (P : params N) (v_thrust v_v_tas : T N) : T N :=
+Definition cruise_fuel_flow (psec : bool) (E : engine) (P : params N) (v_thrust v_v_tas : T N) : T N :=
   match E with Jet => jet_cruise_fuel_flow P v_thrust v_v_tas | Turboprop => tp_cruise_fuel_flow P v_thrust v_v_tas
-             | Piston => piston_cruise_fuel_flow P v_thrust v_v_tas end.
+             | Piston => piston_cruise_fuel_flow psec P v_thrust v_v_tas end.
 
 Definition max_climb_thrust_isa (E : engine) (P : params N) (v_altitude v_v_tas : T N) : T N :=
   match E with Jet => jet_max_climb_thrust_isa P v_altitude v_v_tas
@@ -196,17 +199,17 @@ Definition c_001 : T N := lit 1 100 0x1.47ae147ae147bp-7.
 Definition point_thrust (E : engine) (P : params N) (pt : point N) (mass : T N) : T N :=
   calc_thrust E P mass (t_temp pt) (t_alt pt) (t_vtas pt) (t_rocd pt) (t_acc pt) (t_cruise pt).
 
-Definition fuel_flow (E : engine) (P : params N) (pt : point N) (mass : T N) : T N :=
+Definition fuel_flow (psec : bool) (E : engine) (P : params N) (pt : point N) (mass : T N) : T N :=
   let thrust := point_thrust E P pt mass in
-  if t_cruise pt then cruise_fuel_flow E P thrust (t_vtas pt) else nominal_fuel_flow E P thrust (t_vtas pt).
+  if t_cruise pt then cruise_fuel_flow psec E P thrust (t_vtas pt) else nominal_fuel_flow psec E P thrust (t_vtas pt).
 
 (* np.divide(groundspeed, fuel_flow, out=zeros, where=fuel_flow != 0) *)
-Definition sgr_point (E : engine) (P : params N) (pt : point N) (mass : T N) : T N :=
-  let ff := fuel_flow E P pt mass in
+Definition sgr_point (psec : bool) (E : engine) (P : params N) (pt : point N) (mass : T N) : T N :=
+  let ff := fuel_flow psec E P pt mass in
   if ff =? zero then zero else t_gs pt / ff.
 
-Definition bada_sgr (E : engine) (P : params N) (pts : list (point N)) (masses : list (T N)) : list (T N) :=
-  map (fun pm => sgr_point E P (fst pm) (snd pm)) (combine pts masses).
+Definition bada_sgr (psec : bool) (E : engine) (P : params N) (pts : list (point N)) (masses : list (T N)) : list (T N) :=
+  map (fun pm => sgr_point psec E P (fst pm) (snd pm)) (combine pts masses).
 
 (* 1 / np.where(sgr < 1, inf, sgr): fuel burnt per metre of ground distance *)
 Definition burn_rate (sgr : T N) : T N := if sgr <? one then zero else one / sgr.
